@@ -4,6 +4,18 @@ from probdiffeq.backend.typing import Sequence
 __all__ = ["dt0", "dt0_adaptive"]
 
 
+def _vector_norm(x, /):
+    """Evaluate the Euclidean norm without overflow or underflow of the squares.
+
+    The entries are scaled by the largest magnitude before squaring,
+    so states of magnitude 1e+300 or 1e-300 have a finite, positive norm.
+    """
+    x_max = np.amax(np.abs(x))
+    is_regular = (x_max > 0.0) & (x_max < np.inf())
+    x_max = np.where(is_regular, x_max, 1.0)
+    return x_max * linalg.vector_norm(x / x_max)
+
+
 def dt0(vf, initial_values: Sequence, /, scale=0.01, nugget=1e-5, **vf_kwargs):
     """Propose an initial time-step."""
     if vf.is_jet_lifted:
@@ -17,8 +29,8 @@ def dt0(vf, initial_values: Sequence, /, scale=0.01, nugget=1e-5, **vf_kwargs):
 
     # Never propose a zero step: for u0 = 0 (or a norm that underflows),
     # fall back to the nugget, so that dt0 > 0 for every initial value.
-    norm_y0 = np.maximum(linalg.vector_norm(u0), nugget)
-    norm_dy0 = linalg.vector_norm(f0) + nugget
+    norm_y0 = np.maximum(_vector_norm(u0), nugget)
+    norm_dy0 = _vector_norm(f0) + nugget
 
     return scale * norm_y0 / norm_dy0
 
@@ -49,14 +61,14 @@ def dt0_adaptive(
     f0, _ = tree.ravel_pytree(f0)
 
     scale = atol + np.abs(y0) * rtol
-    d0, d1 = linalg.vector_norm(y0), linalg.vector_norm(f0)
+    d0, d1 = _vector_norm(y0), _vector_norm(f0)
 
     dt0 = np.where((d0 < 1e-5) | (d1 < 1e-5), 1e-6, 0.01 * d0 / d1)
 
     y1 = y0 + dt0 * f0
     [f1] = vf.vector_field(jet_coords=(unravel(y1),), t=t0 + dt0)
     f1, _ = tree.ravel_pytree(f1)
-    d2 = linalg.vector_norm((f1 - f0) / scale) / dt0
+    d2 = _vector_norm((f1 - f0) / scale) / dt0
 
     dt1 = np.where(
         (d1 <= 1e-15) & (d2 <= 1e-15),
